@@ -177,6 +177,8 @@ pub assume_specification[u32::next_power_of_two](x: u32) -> (r: u32)
             &&& pow2(final(self).block_len) && final(self).mapper.alphabet_size <= final(self).block_len
             &&& forall|i: int| 0 <= i < final(self).states@.len() ==> ((#[trigger] final(self).states@[i]).base.is_some() ==> final(self).states@[i].base.unwrap()@ < final(self).states@.len())
             &&& forall|i: int| 0 <= i < final(self).states@.len() ==> (#[trigger] final(self).states@[i]).fail < final(self).states@.len()
+            // stage B: the array encodes the NFA (edges present, no spurious edge, fail/output_pos copied)
+            &&& exists|idmap: Seq<u32>| cw_encodes(final(self).states@, final(self).mapper.table@, *nfa, idmap)
         },
         Err(e) => e is AutomatonScale,
       }
@@ -188,12 +190,18 @@ pub assume_specification[u32::next_power_of_two](x: u32) -> (r: u32)
     let ghost asz = self.mapper.alphabet_size;
     let ghost mut done: Set<int> = Set::empty();
     let ghost mut gstack: Seq<u32> = seq![0u32];
+    let ghost mut inv: Map<int, int> = Map::empty();
+    let ghost mut owner: Map<int, int> = Map::empty();
     proof { axiom_char_key_model(); }
 //@}
 //@after 1 let mut mapped = vec![];{
     proof {
         assert(stack@ =~= seq![0u32]);
         assert(stack@.contains(0u32)) by { assert(stack@[0] == 0u32); }
+        lemma_window(helper);
+        let bl = self.block_len as int;
+        assert(self.states@.len() >= 2);
+        lemma_cwb_init(*nfa, self.states@, tb, state_id_map@);
     }
 //@}
 //@loop 1{
@@ -208,6 +216,9 @@ pub assume_specification[u32::next_power_of_two](x: u32) -> (r: u32)
         forall|k: int| 0 <= k < stack@.len() ==> (#[trigger] stack@[k]) < n && stack@[k] != 1 && state_id_map@[stack@[k] as int] != 1,
         forall|s: int, c: char| done.contains(s) && #[trigger] nfa_edges(*nfa, s).contains_key(c) ==> 0 <= s < n && state_id_map@[nfa_edges(*nfa, s)[c] as int] != 1,
         forall|s: int| 0 <= s < n && s != 1 && #[trigger] state_id_map@[s] != 1 ==> done.contains(s) || stack@.contains(s as u32),
+        // stage B
+        cwb(*nfa, self.states@, tb, state_id_map@, inv, owner, done, -1, 0, Seq::empty(), 0), cwb_used(inv, helper),
+        stack@.no_duplicates(), forall|k: int| 0 <= k < stack@.len() ==> !done.contains(#[trigger] stack@[k] as int),
     ensures stack@.len() == 0,
 //@}
 //@before 1 assert!(state_id != DEAD_STATE_ID);{
@@ -220,10 +231,17 @@ pub assume_specification[u32::next_power_of_two](x: u32) -> (r: u32)
             let k = choose|k: int| 0 <= k < gstack.len() && gstack[k] == x;
             assert(stack@[k] == x);
         }
+        assert forall|k: int| 0 <= k < stack@.len() implies #[trigger] stack@[k] != state_id by {
+            assert(gstack[k] == stack@[k] && gstack[gstack.len() - 1] == state_id);
+        }
+        assert(stack@.no_duplicates());
+        assert(!done.contains(sid)) by { assert(gstack[gstack.len() - 1] == state_id); }
+        assert(state_id < n && state_id != 1 && state_id_map@[sid] != 1) by { assert(gstack[gstack.len() - 1] == state_id); }
     }
 //@}
 //@before 1 continue;{
     proof {
+        lemma_cwb_leaf(*nfa, self.states@, tb, state_id_map@, inv, owner, done, sid);
         done = done.insert(sid);
         assert(forall|c: char| !edges.contains_key(c)) by { assert(edges.dom().len() == 0); assert(edges.dom() =~= Set::<char>::empty()); }
         gstack = stack@;
@@ -282,9 +300,21 @@ pub assume_specification[u32::next_power_of_two](x: u32) -> (r: u32)
     }
     let ghost len0 = self.states@.len();
     let ghost h0 = helper;
+    let ghost st0 = self.states@;
 //@}
 //@before 1 for verif_ref2 in mapped.iter(){
     proof {
+        // stage B: a possibly appended block does not disturb the encoding; then open the state
+        lemma_cwb_extend(*nfa, st0, self.states@, tb, state_id_map@, inv, owner, done, -1, 0, Seq::empty(), 0);
+        lemma_cwb_facts(*nfa, self.states@, tb, state_id_map@, inv, owner, done, -1, 0, Seq::empty(), 0);
+        assert(cwb_used(inv, helper)) by {
+            lemma_cwb_facts(*nfa, st0, tb, state_id_map@, inv, owner, done, -1, 0, Seq::empty(), 0);
+            assert forall|y: int| #[trigger] inv.contains_key(y) && h_active(helper, y) implies h_used_index(helper, y) by {
+                assert(0 <= y < st0.len());
+                if base@ >= len0 { lemma_window(h0); assert(h_active(h0, y)); }
+            }
+        }
+        lemma_cwb_begin(*nfa, self.states@, tb, state_id_map@, inv, owner, done, sid, base@, self.block_len, s1);
         lemma_window(helper);
         lemma_window(h0);
         let bl = self.block_len;
@@ -319,11 +349,17 @@ pub assume_specification[u32::next_power_of_two](x: u32) -> (r: u32)
         forall|s: int, c: char| done.contains(s) && #[trigger] nfa_edges(*nfa, s).contains_key(c) ==> 0 <= s < n && state_id_map@[nfa_edges(*nfa, s)[c] as int] != 1,
         forall|s: int| 0 <= s < n && s != 1 && s != sid && #[trigger] state_id_map@[s] != 1 ==> done.contains(s) || stack@.contains(s as u32),
         state_id_map@[sid] != 1,
+        // stage B
+        cwb(*nfa, self.states@, tb, state_id_map@, inv, owner, done, sid, base@, s1, it3.index@ as int), cwb_used(inv, helper),
+        stack@.no_duplicates(), forall|k: int| 0 <= k < stack@.len() ==> !done.contains(#[trigger] stack@[k] as int) && stack@[k] != sid,
+        !done.contains(sid),
 //@}
 //@before 1 let child_idx = base.get() ^ c;{
     let ghost j0 = it3.index@ as int;
     let ghost st_before = stack@;
     let ghost h_before = helper;
+    let ghost states_before = self.states@;
+    let ghost map_before = state_id_map@;
     proof {
         assert((c, child_id) == s1[j0]);
     }
@@ -342,10 +378,32 @@ pub assume_specification[u32::next_power_of_two](x: u32) -> (r: u32)
             if (base@ ^ s1[j].0) == (base@ ^ c) { lemma_xor_inj_cw(base@, s1[j].0, c); }
             assert(h_active(h_before, (base@ ^ s1[j].0) as int));
         }
+        // stage B: one more child placed
+        let y = child_idx as int;
+        assert(!inv.contains_key(y)) by { if inv.contains_key(y) { assert(h_used_index(h_before, y)); } }
+        assert(y >= 2) by { if y == 0 || y == 1 { assert(h_used_index(h_before, y)); } }
+        lemma_cwb_step(*nfa, states_before, self.states@, tb, map_before, state_id_map@, inv, owner, done, sid, base@, self.block_len, s1, j0);
+        lemma_cwb_facts(*nfa, states_before, tb, map_before, inv, owner, done, sid, base@, s1, j0);
+        assert forall|z: int| #[trigger] inv.insert(y, child_id as int).contains_key(z) && h_active(helper, z) implies h_used_index(helper, z) by {
+            if z != y { assert(inv.contains_key(z)); assert(h_active(h_before, z)); }
+        }
+        inv = inv.insert(y, child_id as int);
+        // the child was not placed before, so it is neither on the stack nor finished
+        reveal(cwb);
+        assert(map_before[child_id as int] == 1);
+        assert forall|k: int| 0 <= k < st_before.len() implies #[trigger] st_before[k] != child_id by { if st_before[k] == child_id { assert(map_before[st_before[k] as int] != 1); } }
+        assert(stack@.no_duplicates());
+        assert(!done.contains(child_id as int));
+        assert(child_id as int != sid);
     }
+//@}
+//@before 1 self.states[usize::from_u32(state_idx)].set_base(base);{
+    let ghost states_b = self.states@;
 //@}
 //@after 1 self.states[usize::from_u32(state_idx)].set_base(base);{
     proof {
+        lemma_cwb_finish(*nfa, states_b, self.states@, tb, state_id_map@, inv, owner, done, sid, base, self.block_len, s1);
+        owner = owner.insert(state_id_map@[sid] as int, sid);
         assert forall|label: char| edges.contains_key(label) implies state_id_map@[edges[label] as int] != 1 by {
             let i = choose|i: int| 0 <= i < s1.len() && pair_of(*nfa, sid, tb, label, #[trigger] s1[i]);
             assert(s1[i].1 == edges[label]);
@@ -362,19 +420,52 @@ pub assume_specification[u32::next_power_of_two](x: u32) -> (r: u32)
         }
         let bl = self.block_len as int;
         assert(self.states@.len() >= 2) by { assert(helper.num_blocks as int * bl >= bl) by (nonlinear_arith) requires helper.num_blocks >= 1, bl >= 2; }
+        // stage B: everything is placed and finished
+        assert forall|t: int| 0 <= t < n && t != 1 implies #[trigger] state_id_map@[t] != 1 && done.contains(t) by {
+            lemma_all_placed(*nfa, state_id_map@, done, t);
+            if !done.contains(t) { assert(stack@.contains(t as u32)); }
+        }
+    }
+    let ghost stl = self.states@;
+    let ghost idm = state_id_map@;
+    proof {
+        // distinct NFA states have distinct slots (needed so that the fail/output_pos writes do not interfere)
+        reveal(cwb);
+        assert forall|t1: int, t2: int| 0 <= t1 < n && 0 <= t2 < n && t1 != 1 && t2 != 1 && #[trigger] idm[t1] == #[trigger] idm[t2] implies t1 == t2 by {
+            if t1 >= 2 { assert(inv[idm[t1] as int] == t1); }
+            if t2 >= 2 { assert(inv[idm[t2] as int] == t2); }
+            if t1 == 0 && t2 >= 2 { assert(inv.contains_key(idm[t2] as int)); }
+            if t2 == 0 && t1 >= 2 { assert(inv.contains_key(idm[t1] as int)); }
+        }
     }
 //@}
 //@loop 4{
     invariant
-        self.mapper == old(self).mapper, self.states@.len() >= 2,
+        self.mapper == old(self).mapper, self.states@.len() >= 2, state_id_map@ == idm, self.states@.len() == stl.len(),
+        forall|t1: int, t2: int| 0 <= t1 < n && 0 <= t2 < n && t1 != 1 && t2 != 1 && #[trigger] idm[t1] == #[trigger] idm[t2] ==> t1 == t2,
+        forall|y: int| 0 <= y < stl.len() ==> (#[trigger] self.states@[y]).base == stl[y].base && self.states@[y].check == stl[y].check,
+        forall|s: int| 0 <= s < i && s != 1 ==> (#[trigger] self.states@[idm[s] as int]).fail == (if nfa.states@[s].fail == 1 { 1u32 } else { idm[nfa.states@[s].fail as int] })
+            && self.states@[idm[s] as int].output_pos == nfa.states@[s].output_pos,
         cb_inv(*self, helper), nfa_tree(*nfa), n == nfa.states@.len(), state_id_map@.len() == n,
         forall|i: int| 0 <= i < n ==> (#[trigger] state_id_map@[i]) < self.states@.len(),
         forall|t: int| 0 <= t < n && t != 1 ==> #[trigger] state_id_map@[t] != 1,
         forall|x: int| 0 <= x < self.states@.len() ==> (#[trigger] self.states@[x]).fail < self.states@.len(),
 //@}
+//@before 1 let idx = usize::from_u32(state_id_map[i]);{
+    let ghost st_i = self.states@;
+//@}
+//@after 1 self.states[idx].set_fail(fail_idx);{
+    proof { }
+//@}
+//@before 1 self.states.shrink_to_fit();{
+    proof {
+        lemma_cwb_final(*nfa, stl, self.states@, tb, idm, inv, owner, done);
+    }
+//@}
 //@before 1 Ok(()){
     proof {
         lemma_window(helper);
+        assert(cw_encodes(self.states@, self.mapper.table@, *nfa, idm));
     }
 //@}
 //@endimpl
